@@ -19,10 +19,10 @@ import (
 	"io/ioutil"
 	"log"
 	"strings"
+	"sync/atomic"
 	"testing"
 
 	"git.torproject.org/pluggable-transports/snowflake.git/v2/common/messages"
-	"git.torproject.org/pluggable-transports/snowflake.git/v2/common/nat"
 	"git.torproject.org/pluggable-transports/snowflake.git/v2/common/util"
 	vh "git.torproject.org/pluggable-transports/snowflake.git/v2/common/zzverif"
 	"github.com/pion/webrtc/v3"
@@ -85,10 +85,26 @@ func (c *c08Rendezvous) Exchange(req []byte) ([]byte, error) {
 	return resp.EncodePollResponse()
 }
 
+var c08Built int64
+
 // c08Negotiate runs the real Negotiate once.
 func c08Negotiate(keep bool, typ webrtc.SDPType, in string) vh.C08Sent {
 	rv := &c08Rendezvous{}
-	bc := &BrokerChannel{Rendezvous: rv, keepLocalAddresses: keep, natType: nat.NATUnknown}
+	// the channel is built the way the client builds it (from a ClientConfig, with the rendezvous method replaced
+	// by the recording one) and, for the default setting, also the way an embedder may: a BrokerChannel literal
+	// that only names its rendezvous method
+	var bc *BrokerChannel
+	if n := atomic.AddInt64(&c08Built, 1); !keep && n%2 == 0 {
+		bc = &BrokerChannel{Rendezvous: rv}
+	} else {
+		var err error
+		bc, err = newBrokerChannelFromConfig(ClientConfig{BrokerURL: "http://127.0.0.1:1/", KeepLocalAddresses: keep})
+		if err != nil {
+			rv.sent.Panic = "cannot build the broker channel: " + err.Error()
+			return rv.sent
+		}
+		bc.Rendezvous = rv
+	}
 	func() {
 		defer func() {
 			if e := recover(); e != nil {
